@@ -51,6 +51,11 @@ theorem header_recognised (v : Text) (s e : Int) (incl : Bool) (hv : varOk v = t
 theorem hand_expansion_stable_under_unrolling (bs : List Block) : handList [] (unroll1 bs) = handList [] bs :=
   handList_unroll1 bs
 
+/-- the budget condition of well-formedness in closed form: every loop instance costs its iterations
+times (the lines of its body + what the loops inside one copy cost) -/
+theorem expansion_cost_closed_form (bs : List Block) (h : depthList bs ≤ MAX_EXPANSION_PASSES) :
+    cost bs = costL bs := costIter_eq_costL MAX_EXPANSION_PASSES bs h
+
 /-! Non-vacuity: the premise holds for the documented shape (DESIGN.md, Appendix A) and for a nested
 program with a continuation line, an inclusive range, a negative start and a shadowed variable. -/
 
